@@ -1,8 +1,9 @@
 #!/bin/bash
 # Build the whole Coq development from a clean state (full .vo build) and run the hygiene grep.
 set -e
-cd "$(dirname "$0")"
-export PYTHONPATH=/repo:/verif/harness PYTHONHASHSEED=0 PYTHONDONTWRITEBYTECODE=1
+HERE="$(cd "$(dirname "$0")" && pwd)"; cd "$HERE"
+export LV_REPO=${LV_REPO:-/repo}
+export PYTHONPATH=$LV_REPO:$HERE/harness PYTHONHASHSEED=0 PYTHONDONTWRITEBYTECODE=1
 # forbidden constructs anywhere in the development
 if grep -rnE '\b(Admitted|admit|Axiom|Parameter|Conjecture|Abort All)\b|Unset Guard|bypass_check|type-in-type|impredicative-set|Admit Obligations' \
      --include='*.v' coq/Model coq/Proofs coq/Properties; then
